@@ -22,6 +22,14 @@ RULES = {
     'N4_debug_assert': [
         (r'\bdebug_assert!\(\s*([^;]*?)\s*(?:,\s*"[^"]*"\s*,?\s*)?\);', r'proof { assert(\1); }'),
     ],
+    'N4_debug_assert_drop': [
+        (r'\bdebug_assert!\(\s*[^;]*?\);', ''),
+    ],
+    # P3: `for state in self.state.iter_mut() { .. state.m() .. }` -> index loop (Verus gives no
+    # post-state for iter_mut loops)
+    'P3_state_iter_mut': [
+        (lambda body: __import__('vx.rules', fromlist=['x']).iter_mut_to_index(body)),
+    ],
     # P5 mutex guard elimination ----------------------------------------------
     'P5_lock_let': [
         (r'let\s+mut\s+readiness\s*=\s*self\.wakers\.readiness\(\);', 'self.wakers.lock();'),
@@ -60,3 +68,17 @@ RULES = {
         (r'unsafe\s*\{\s*(self\.items\.\w+\([^{};]*\))\s*\}', r'\1'),
     ],
 }
+
+
+import re as _re
+from . import rustlex as _lex
+
+
+def iter_mut_to_index(body):
+    m = _re.search(r'for\s+state\s+in\s+self\.state\.iter_mut\(\)\s*\{', body)
+    if not m:
+        return body, 0
+    ob = m.end() - 1
+    cb = _lex.match_close(_lex.mask(body), ob)
+    inner = _re.sub(r'\bstate\.', 'self.state[k].', body[ob:cb + 1])
+    return body[:m.start()] + 'for k in 0..N ' + inner + body[cb + 1:], 1
